@@ -11,6 +11,8 @@ pub enum Family {
     Pressure,
     Roamer,
     Divergent,
+    IoPressure,
+    Brackets,
 }
 
 impl Family {
@@ -22,6 +24,8 @@ impl Family {
             Family::Pressure => "F4-pressure",
             Family::Roamer => "F5-roamer",
             Family::Divergent => "F6-divergent",
+            Family::IoPressure => "F8-io-pressure",
+            Family::Brackets => "F9-bracket-dense",
         }
     }
 }
@@ -326,7 +330,11 @@ fn stmt(rng: &mut Rng, a: &mut Asm, cfg: &StructCfg, depth: u32, budget: &mut i3
         }
         (x, y)
     };
-    let choice = rng.below(if depth < cfg.max_depth { 20 } else { 14 });
+    let choice = match rng.below(if depth < cfg.max_depth { 22 } else { 15 }) {
+        14 if depth >= cfg.max_depth => 19,
+        20 | 21 => if rng.coin() { 19 } else { 20 },
+        x => x,
+    };
     match choice {
         0 => {
             let c = cell(rng);
@@ -510,6 +518,42 @@ fn stmt(rng: &mut Rng, a: &mut Asm, cfg: &StructCfg, depth: u32, budget: &mut i3
                 if rng.chance(3, 4) {
                     a.add(c, -1);
                 }
+            });
+        }
+        19 => {
+            // identity test: y = c - x ; y += x ; y -= c  must be zero in all bits; print a
+            // marker if it is not (exposes corruption above the low byte on wide cells)
+            let (x, y) = two(rng);
+            let t = k + rng.range(0, cfg.scratch - 1);
+            let cst = *rng.pick(&[-1i64, -2, -3, 1, 2, 5]);
+            a.clear(y);
+            a.add(y, cst);
+            // y -= x (non-destructive on x)
+            a.while_(x, |a| {
+                a.add(y, -1);
+                a.add(t, 1);
+                a.add(x, -1);
+            });
+            a.while_(t, |a| {
+                a.add(x, 1);
+                a.add(t, -1);
+            });
+            // y += x
+            a.while_(x, |a| {
+                a.add(y, 1);
+                a.add(t, 1);
+                a.add(x, -1);
+            });
+            a.while_(t, |a| {
+                a.add(x, 1);
+                a.add(t, -1);
+            });
+            a.add(y, -cst);
+            a.while_(y, |a| {
+                a.add(t, 7);
+                a.output(t);
+                a.clear(t);
+                a.clear(y);
             });
         }
         _ => {
@@ -831,7 +875,15 @@ pub fn divergent(rng: &mut Rng) -> String {
         7 => "-[>+<--]".to_string(),
         8 => ",[>+<]".to_string(),   // diverges iff first input non-zero
         9 => "+[>,.<]".to_string(),  // prints inputs forever (zeros after EOF)
-        10 => "+[>+[-]<]".to_string(),
+        10 => {
+            // a loop on a non-zero cell whose body has no net effect: skipped inner loops on
+            // zero cells, cancelling pairs, there-and-back moves
+            let mut body = String::new();
+            for _ in 0..rng.urange(1, 4) {
+                body.push_str(*rng.pick(&[">[.]<", ">[-]<", "<[>]>", ">[[-]+]<", "+-", "><", ">+-<", ">>[<]<<", ">[>+<-]<", "[-]+", ">[]<"][..]));
+            }
+            format!("{}[{}]", *rng.pick(&["+", ",", "++", "-"][..]), body)
+        }
         _ => {
             // nested: outer counted loop containing an inner infinite loop reached on iteration j
             let j = rng.range(1, 5);
@@ -849,6 +901,128 @@ pub fn divergent(rng: &mut Rng) -> String {
     // dead code after
     if rng.coin() {
         s.push_str("+.");
+    }
+    s
+}
+
+// ---------------------------------------------------------------------------------
+// F8: many values alive in temporaries across input/output calls
+
+/// Straight-line (or single-loop) passes over k cells mixing small arithmetic, copies
+/// between cells, inputs and outputs, so that the bytecode generator's value numbering
+/// keeps many cell values in temporaries across `.` and `,` (runtime calls in the JIT).
+pub fn io_pressure(rng: &mut Rng) -> String {
+    let k = rng.range(5, 14);
+    let mut a = Asm::new();
+    for c in 0..k {
+        match rng.below(3) {
+            0 => a.add(c, rng.range(1, 9)),
+            _ => a.input(c),
+        }
+    }
+    let in_loop = rng.chance(1, 3);
+    let counter = k + 1;
+    let scratch = k;
+    let passes = rng.urange(2, 4);
+    let body = |a: &mut Asm, rng: &mut Rng| {
+        for _ in 0..passes {
+            let forward = rng.coin();
+            let style = rng.below(5);
+            for i in 0..k {
+                let c = if forward { i } else { k - 1 - i };
+                match style {
+                    0 => {
+                        a.add(c, -1);
+                        a.output(c);
+                    }
+                    1 => {
+                        a.add(c, rng.range(-2, 3));
+                        if rng.chance(1, 3) {
+                            a.output(c);
+                        }
+                    }
+                    2 => {
+                        // c += neighbour (non-destructive), then maybe print / read
+                        let d = (c + 1) % k;
+                        a.while_(d, |a| {
+                            a.add(c, 1);
+                            a.add(scratch, 1);
+                            a.add(d, -1);
+                        });
+                        a.while_(scratch, |a| {
+                            a.add(d, 1);
+                            a.add(scratch, -1);
+                        });
+                        if rng.chance(1, 2) {
+                            a.output(c);
+                        }
+                    }
+                    3 => {
+                        if rng.chance(1, 4) {
+                            a.input(c);
+                        } else {
+                            a.add(c, 1);
+                        }
+                        if rng.chance(1, 2) {
+                            a.output((c + rng.range(0, k - 1)) % k);
+                        }
+                    }
+                    _ => {
+                        a.output(c);
+                        a.add(c, rng.range(-1, 2));
+                    }
+                }
+            }
+            if rng.chance(1, 3) {
+                // an input in the middle: everything alive must survive the call
+                a.input(rng.range(0, k - 1));
+            }
+        }
+    };
+    if in_loop {
+        a.input(counter);
+        a.while_(counter, |a| {
+            body(a, rng);
+            a.add(counter, -1);
+        });
+    } else {
+        body(&mut a, rng);
+    }
+    for c in 0..k {
+        a.output(c);
+    }
+    a.out
+}
+
+// ---------------------------------------------------------------------------------
+// F9: bracket-dense programs (branches that target branches, empty and skipped loops)
+
+pub fn brackets(rng: &mut Rng) -> String {
+    let len = rng.urange(4, 28);
+    let w = [3u32, 3, 2, 2, 2, 3, 8, 8];
+    let chars = b"+-<>,.[]";
+    let mut s = String::new();
+    let mut depth = 0usize;
+    for _ in 0..len {
+        let c = chars[rng.weighted(&w)];
+        match c {
+            b'[' => {
+                if depth < 6 {
+                    depth += 1;
+                    s.push('[');
+                }
+            }
+            b']' => {
+                if depth > 0 {
+                    depth -= 1;
+                    s.push(']');
+                }
+            }
+            _ => s.push(c as char),
+        }
+    }
+    for _ in 0..depth {
+        s.push(']');
     }
     s
 }
@@ -878,6 +1052,8 @@ pub fn program(rng: &mut Rng, fam: Family, width: u32, corpus: &[String], big: b
         Family::Pressure => pressure(rng, width),
         Family::Roamer => roamer(rng, big),
         Family::Divergent => divergent(rng),
+        Family::IoPressure => io_pressure(rng),
+        Family::Brackets => brackets(rng),
     };
     if rng.chance(1, 8) {
         salt(rng, &p)
